@@ -703,3 +703,41 @@ Proof.
     destruct (reconcile_enabled rank w Hwf (or_intror Er)) as (e & w1 & He & E). exact (Hstuck e w1 He E).
 Qed.
 End Statements.
+
+(* ---------- after a restart ---------- *)
+Section AfterRestart.
+Variable rank : ip -> N.
+
+Lemma wrun_app evs1 evs2 w w1 : wrun rank evs1 w = Some w1 -> wrun rank (evs1 ++ evs2) w = wrun rank evs2 w1.
+Proof. unfold wrun. rewrite fold_left_app. intros ->. reflexivity. Qed.
+
+(* the process restarts and the pool reconciler delivers a configuration with distinct
+   names and disjoint pools: whatever the previous instance left behind, the new one runs
+   out of work within the bound, and then its memory is exactly what the statuses record *)
+Theorem restart_settles evs0 w ps :
+  wrun rank evs0 world0 = Some w ->
+  names_unique ps -> pools_disjoint (by_name ps) ->
+  (forall s o, aget (w_api w) s = Some o -> o_want o = WNone) ->
+  exists wp evs w', wrun rank [ECrash; EPools ps] w = Some wp /\
+    Forall rev_ev evs /\ (length evs <= budget wp)%nat /\
+    wrun rank (evs0 ++ [ECrash; EPools ps] ++ evs) world0 = Some w' /\ quiescent w' /\
+    forall s, match aget (w_api w') s with
+              | Some o => same_ips (ips_of (c_mem (w_ctl w')) s) (o_status o)
+              | None => get_alloc (c_mem (w_ctl w')) s = None
+              end.
+Proof.
+  intros Hr0 Hnu Hdj Hreg.
+  set (wp := {| w_api := w_api w; w_ctl := set_pools_c fresh_ctl ps; w_gate := false; w_reload := true;
+               w_queue := map fst (w_api w) |}).
+  assert (Hwp : wrun rank [ECrash; EPools ps] w = Some wp) by reflexivity.
+  assert (Hs : settled_inputs wp).
+  { split; [|split; [reflexivity|split; [split; assumption|exact Hreg]]].
+    split; [split; [constructor|intros e1 e2 x []]|intros e []]. }
+  destruct (reconcile_reaches_quiescence rank wp Hs (or_introl eq_refl)) as (evs & w' & Hevs & Hr & Hq & Hlen).
+  exists wp, evs, w'. split; [exact Hwp|]. split; [exact Hevs|]. split; [exact Hlen|].
+  assert (Hfull : wrun rank (evs0 ++ [ECrash; EPools ps] ++ evs) world0 = Some w').
+  { rewrite (wrun_app _ _ _ _ Hr0). rewrite (wrun_app _ _ _ _ Hwp). exact Hr. }
+  split; [exact Hfull|]. split; [exact Hq|].
+  exact (quiescent_memory_eq_status rank _ _ Hfull Hq).
+Qed.
+End AfterRestart.
